@@ -8,6 +8,7 @@
 package pipesim
 
 import (
+	"bytes"
 	"context"
 	"encoding/base64"
 	"encoding/json"
@@ -380,6 +381,9 @@ type worlds struct {
 	upHits   int
 	upSeen   []http.Header
 	mu       sync.Mutex
+	// request line / body of the next send (robust-sim only); the zero values mean "GET" without body
+	reqMethod string
+	reqBody   []byte
 }
 
 var (
@@ -685,7 +689,14 @@ func (w *worlds) send(entry, path string, hdr map[string]string) (ans answer, pa
 	w.mu.Unlock()
 	switch entry {
 	case "decision", "proxy":
-		req := httptest.NewRequest("GET", "http://svc.local"+path, nil)
+		method, body := "GET", io.Reader(nil)
+		if w.reqMethod != "" {
+			method = w.reqMethod
+		}
+		if w.reqBody != nil {
+			body = bytes.NewReader(w.reqBody)
+		}
+		req := httptest.NewRequest(method, "http://svc.local"+path, body)
 		for k, v := range hdr {
 			req.Header.Set(k, v)
 		}
@@ -703,7 +714,7 @@ func (w *worlds) send(entry, path string, hdr map[string]string) (ans answer, pa
 		ctx, cancel := context.WithTimeout(context.Background(), 20*time.Second)
 		defer cancel()
 		resp, err := w.envoy.Check(ctx, &envoy_auth.CheckRequest{Attributes: &envoy_auth.AttributeContext{Request: &envoy_auth.AttributeContext_Request{
-			Http: &envoy_auth.AttributeContext_HttpRequest{Method: "GET", Scheme: "http", Host: "svc.local", Path: path, Headers: lower(hdr)},
+			Http: &envoy_auth.AttributeContext_HttpRequest{Method: map[bool]string{true: "GET", false: w.reqMethod}[w.reqMethod == ""], Scheme: "http", Host: "svc.local", Path: path, Headers: lower(hdr), RawBody: w.reqBody},
 		}}})
 		if err != nil {
 			ans.status = "grpc-error: " + err.Error()
